@@ -86,12 +86,12 @@ static int cmp_key(void const *ctx, void const *b)
 enum
 {
     L_RM_LEAF, L_RM_ONE, L_RM_TWO_SUCC_RIGHT, L_RM_TWO_SUCC_DEEP, L_DUP, L_ROOT_CHANGED, L_SIZE16, L_SIZE64,
-    L_INS_AFTER_RM, L_RM_BLACK, L_BATTERY, L_TEAR_INTERRUPT, L_TEAR_RESTART, L_EMPTIED, L_LEFT_ONLY, L_RIGHT_ONLY, L_RM_ROOT, L_MANUAL_INSERT, L_TEAR_START_NODE, L_CMP_MAGNITUDE, L_TALL
+    L_INS_AFTER_RM, L_RM_BLACK, L_BATTERY, L_TEAR_INTERRUPT, L_TEAR_RESTART, L_EMPTIED, L_LEFT_ONLY, L_RIGHT_ONLY, L_RM_ROOT, L_MANUAL_INSERT, L_TEAR_START_NODE, L_CMP_MAGNITUDE, L_TALL, L_DUP_SELF
 };
 static char const *const labels[] = {"remove_leaf", "remove_one_child", "remove_two_children_successor_is_right_child",
                                      "remove_two_children_deeper_successor", "duplicate_insert", "root_changed", "size_ge_16", "size_ge_64",
                                      "insert_after_remove", "rbt_removed_black_node", "iterator_battery_on_ge5_nodes", "tear_interrupted_midway",
-                                     "tear_restarted_from_null", "tree_emptied_and_refilled", "has_left_only_node", "has_right_only_node", "remove_root", "manual_link_plus_insert_adjust", "tear_started_at_arbitrary_node", "comparator_returns_magnitudes_not_just_signs", "tall_minimal_shape_143_to_28656_nodes", nullptr};
+                                     "tear_restarted_from_null", "tree_emptied_and_refilled", "has_left_only_node", "has_right_only_node", "remove_root", "manual_link_plus_insert_adjust", "tear_started_at_arbitrary_node", "comparator_returns_magnitudes_not_just_signs", "tall_minimal_shape_143_to_28656_nodes", "resident_element_offered_to_insert_again", nullptr};
 static char const *const metrics[] = {"max_live_nodes", "max_height", nullptr};
 static uint8_t const dict[] = {4, 5, 6, 12, 13, 20, 21};
 
@@ -447,10 +447,26 @@ static void free_all(Tree &t)
     t.model.clear();
 }
 
+static bool g_offer_resident = false; // the next duplicate insert offers the resident element itself instead of a second object
 static void do_insert(Ctx &cx, Tree &t, int key, bool &inserted)
 {
-    Item *it = new_item(t, key);
     auto f = t.model.find(key);
+    if (f != t.model.end() && g_offer_resident)
+    {
+        // inserting the very object that is already in the tree: nothing may change, the object itself is returned
+        std::vector<uint8_t> before, after;
+        snapshot(t, before);
+        N *res = TF(insert)(&t.root, &f->second->node, cmp_nodes);
+        snapshot(t, after);
+        inserted = false;
+        cx.label(L_DUP);
+        cx.label(L_DUP_SELF);
+        cx.log("insert(%d) -> the resident element itself\n", key);
+        VP_CHECK(cx, res == &f->second->node, "insert:duplicate_wrong_return", "%s insert of the resident element of key %d did not return it", kName, key);
+        VP_CHECK(cx, before == after, "insert:duplicate_modified_tree", "%s insert of the resident element of key %d changed node/root bytes", kName, key);
+        return;
+    }
+    Item *it = new_item(t, key);
     std::vector<uint8_t> before, after;
     if (f != t.model.end()) { snapshot(t, before); }
     N *res = TF(insert)(&t.root, &it->node, cmp_nodes);
@@ -630,7 +646,9 @@ static void run_case(Tape &tp, Ctx &cx)
     {
         ++nops;
         ++cx.rep->subcases;
-        uint8_t op = tp.u8() % 10;
+        uint8_t opb = tp.u8();
+        uint8_t op = opb % 10;
+        g_offer_resident = ((opb / 10) & 3) == 3; // spare bits of the operation byte
         int key = int(tp.u8()) % U;
         cx.hash.add(op);
         cx.hash.add(uint64_t(key));
